@@ -4,7 +4,7 @@
    admissible St p := 0 < bits St /\ 2 <= p <= tmax St          (p fits the element type; implied by p <= maxCardinality)
    in_range T y   :=  tmin T <= y <= tmax T                     (y is a value of the C type T) *)
 From Coq Require Import ZArith Bool.
-From C04 Require Import Model ProofsBase ProofsIntegral ProofsRings.
+From C04 Require Import Model ProofsBase ProofsIntegral ProofsRings Redc ProofsMont.
 Local Open Scope Z_scope.
 
 (* ---- Modular<S, C>, integral storage (modular-integral.inl) ---- *)
@@ -116,7 +116,24 @@ Theorem C04_extended_specialised_sources : forall prec p, 2 <= p -> forall s a,
 Proof. exact ex_init_specialised_correct. Qed.
 Print Assumptions C04_extended_specialised_sources.
 
-(* ---- Montgomery<int32_t>: relative to the REDC specification (proved in C07 for its own model) ---- *)
-Theorem C04_montgomery_image_canonical_partial : forall p, 3 <= p <= 40503 -> redc_spec p -> forall r, 0 <= r < p -> 0 <= mg_to p r < p.
-Proof. exact mg_to_canonical. Qed.
-Print Assumptions C04_montgomery_image_canonical_partial.
+(* ---- Montgomery<int32_t> (hypothesis-free: the 32-bit redc is Montgomery reduction, _nim is right for every odd p in 3..40503
+        by a complete kernel sweep, B = 2^16) ---- *)
+Theorem C04_montgomery_redc_is_REDC : forall p, 3 <= p <= 40503 -> Z.odd p = true -> forall c, 0 <= c < p * p ->
+  0 <= mg_redc p c < p /\ mg_redc p c = (c * Binv 65536 p (mg_nim p)) mod p.
+Proof. exact mg_redc_spec. Qed.
+Print Assumptions C04_montgomery_redc_is_REDC.
+Theorem C04_montgomery_to_from_identity : forall p, 3 <= p <= 40503 -> Z.odd p = true -> forall r, 0 <= r < p ->
+  0 <= mg_to p r < p /\ mg_lift p (mg_to p r) = r.
+Proof. exact mg_roundtrip. Qed.
+Print Assumptions C04_montgomery_to_from_identity.
+Theorem C04_montgomery_image_value : forall p, 3 <= p <= 40503 -> Z.odd p = true -> forall r, 0 <= r < p -> mg_to p r = (r * 65536) mod p.
+Proof. exact mg_to_value. Qed.
+Print Assumptions C04_montgomery_image_value.
+Theorem C04_montgomery_init_convert : forall p, 3 <= p <= 40503 -> Z.odd p = true -> forall s a, mg_src_ok s a ->
+  exists e, mg_init p s a = Some e /\ 0 <= e < p /\ residue p a (mg_lift p e).
+Proof. exact mg_init_correct. Qed.
+Print Assumptions C04_montgomery_init_convert.
+Theorem C04_montgomery_constants : forall p, 3 <= p <= 40503 -> Z.odd p = true ->
+  mg_lift p (mg_one p) = 1 /\ residue p (-1) (mg_lift p (mg_mone p)).
+Proof. exact mg_constants. Qed.
+Print Assumptions C04_montgomery_constants.
